@@ -497,6 +497,8 @@ func c14Work(w *h.W) {
 			w.Violation("isolation: "+c14Mutators[mi].name+" leaks into another interpreter", c, exp, act, 1)
 		}
 	}
+	// (f) fresh atoms across interpreters
+	c14FreshAtoms(w)
 	// (e) results kept by the caller across the whole goal matrix
 	c14Retained(w)
 	// (a) atom table: all pairs (triples) of short thread programs, all interleavings
@@ -608,6 +610,10 @@ func c14Replay(b []byte) (string, string, bool) {
 	if probe.Kind == "retained-all" {
 		return c14RetainedAllReplay(probe.Goal)
 	}
+	var fc c14FreshCase
+	if json.Unmarshal(b, &fc) == nil && fc.Fresh {
+		return c14FreshRun(&fc)
+	}
 	switch c.Kind {
 	case "isolation":
 		for mi := range c14Mutators {
@@ -643,7 +649,7 @@ func c14Replay(b []byte) (string, string, bool) {
 func init() {
 	h.Register(&h.Check{
 		ID: "C14",
-		Rule: "(a) atom table: engine/atom.go and engine/variable.go are rebuilt with sync / sync/atomic routed through the scheduler shim; all pairs of thread programs of <= 2 operations (and all triples of 1-operation programs) over {NewAtom(a), NewAtom(b), NewAtom(a).String()} with names that are new in every execution, under every interleaving at the lock/unlock/atomic operations within a preemption bound; each recorded call/return history is checked for linearizability against a sequential name<->id map with porcupine, and afterwards every name has one id and every id one name; (b) pairs of interpreters each running one of 5 small queries (colliding atom creation, variable creation, error terms) under every schedule with at most D deviations from the default schedule (D = 1 quick, 2 thorough): each answers as it does alone; (c) isolation matrix: 19 mutators (clauses, loading, operators, flags, char conversions, streams, current output, Register, initialization, I/O) in interpreter A x 21 observers in interpreter B (listings, current_op/3, reading/writing operator-dependent terms, flags, char conversions, stream properties, the Go error text of an exception with an operator culprit): B's observations equal those of a fresh interpreter; (d) a free-running -race pass of 8 concurrently created/loaded/queried interpreters per round, plus one round in which 8 interpreters run the whole goal matrix at once; (e) results kept by the caller: interpreter A runs EVERY registered procedure x all tuples of 8 argument shapes (arity >= 4: 4 shapes, >= 6: 2) and its caller keeps each error value and raw first answer; interpreter B then runs the same goals; every kept value must render exactly as before B ran, and B's errors are A's; finally a third interpreter runs the whole matrix and every value still held is rendered once more. Distinct = scenario.",
+		Rule: "(a) atom table: engine/atom.go and engine/variable.go are rebuilt with sync / sync/atomic routed through the scheduler shim; all pairs of thread programs of <= 2 operations (and all triples of 1-operation programs) over {NewAtom(a), NewAtom(b), NewAtom(a).String()} with names that are new in every execution, under every interleaving at the lock/unlock/atomic operations within a preemption bound; each recorded call/return history is checked for linearizability against a sequential name<->id map with porcupine, and afterwards every name has one id and every id one name; (b) pairs of interpreters each running one of 5 small queries (colliding atom creation, variable creation, error terms) under every schedule with at most D deviations from the default schedule (D = 1 quick, 2 thorough): each answers as it does alone; (c) isolation matrix: 19 mutators (clauses, loading, operators, flags, char conversions, streams, current output, Register, initialization, I/O) in interpreter A x 21 observers in interpreter B (listings, current_op/3, reading/writing operator-dependent terms, flags, char conversions, stream properties, the Go error text of an exception with an operator culprit): B's observations equal those of a fresh interpreter; (d) a free-running -race pass of 8 concurrently created/loaded/queried interpreters per round, plus one round in which 8 interpreters run the whole goal matrix at once; (e) results kept by the caller: interpreter A runs EVERY registered procedure x all tuples of 8 argument shapes (arity >= 4: 4 shapes, >= 6: 2) and its caller keeps each error value and raw first answer; interpreter B then runs the same goals; every kept value must render exactly as before B ran, and B's errors are A's; finally a third interpreter runs the whole matrix and every value still held is rendered once more; (f) fresh atoms: a name no interpreter has seen is first interned in interpreter A through each of 13 routes (parser, quoted writes of several kinds - which lex the name -, atom_codes, atom_chars, atom_concat, sub_atom, read_term, op/3, =..), interpreter B mentions it (by text / by atom_codes) and keeps the atom, A and a third interpreter create other names of the same length (four lengths) through every route, and B's atom must still be spelled as before and be the atom its name denotes. Distinct = scenario.",
 		Explanation: "state = scheduler state of a scenario (per-thread progress, lock state); transition = one lock/unlock/atomic/channel operation of the real code executed under the controlled scheduler; every complete schedule is one trace whose recorded history is validated against the sequential model; the race pass is dynamic analysis on free-running executions of the same kind of bodies",
 		Assumptions: []string{"interleavings are explored at synchronisation operations only, up to the stated preemption bound (sequential consistency); unsynchronised accesses are left to the race detector pass", "variable numbers come from a process-wide counter and are not compared"},
 		Work:        c14Work,
